@@ -80,6 +80,31 @@ pub fn c13dec(args: &[String]) {
             }
         } else if !complete {
             nincomplete += 1;
+            // the table builder itself must refuse the description (whatever stream follows)
+            let d2 = desc.clone();
+            let built = std::panic::catch_unwind(move || {
+                let mut t = ruzstd::huff0::HuffmanTable::new();
+                let mut padded = d2.clone();
+                padded.extend_from_slice(&[0u8; 8]);
+                t.build_decoder(&padded).is_ok()
+            });
+            match built {
+                Ok(true) => {
+                    bad += 1;
+                    if mism.len() < 10 {
+                        mism.push(json!({"weights": c["weights"], "error": "the table builder accepts weights that cannot form a complete code of depth <= 11", "desc": desc}));
+                    }
+                    continue;
+                }
+                Err(p) => {
+                    bad += 1;
+                    if mism.len() < 10 {
+                        mism.push(json!({"weights": c["weights"], "error": format!("the table builder panics: {}", panic_msg(p)), "desc": desc}));
+                    }
+                    continue;
+                }
+                Ok(false) => {}
+            }
             if reference.is_ok() {
                 tool += 1;
                 if tools.len() < 5 {
